@@ -148,6 +148,8 @@ def plans(prop, tier):
             P.append((k, True, 'ret', 2, ('pause', 'sigkill') if k != 'thread' else ('pause',), 'poolstyle'))   # as a Pool consumes it
         # the parent-side forwarding thread paused at its line events while the backend is SIGKILLed
         P.append(('remote', True, 'ret', 2, ('fpause',), 'blocked'))
+        # the same while it is in the middle of an 32 MB result message (the backend dies part-way through sending it)
+        P.append(('remote', True, 'big', 2, ('fpause',), 'blocked', 'midmsg'))
     elif prop == 'C16':
         for k in kinds:
             P.append((k, False, 'ret', 0, ('pause',)))
@@ -203,7 +205,7 @@ def run(prop, tier, replay=None):
         for bc in base_cases:
             if bc['observe'] == 'slowfin':
                 bc['observe'] = None
-            if bc['observe'] == 'double':
+            if bc['observe'] in ('double', 'midmsg'):
                 bc['observe'] = None
             if bc['observe'] == 'slowarg':
                 bc.update(observe=None, slowarg=True)
@@ -229,6 +231,21 @@ def run(prop, tier, replay=None):
                 extra = {}
                 if f in ('term_after_finish', 'term_idle'):
                     pts = [0]
+                if obsmode == 'midmsg':
+                    # points inside the longest run of _recv_exact line events = while the big body is being collected
+                    runs, cur = [], []
+                    for i, ev_ in enumerate(events, 1):
+                        if ev_[1] == '_recv_exact':
+                            cur.append(i)
+                        elif cur:
+                            runs.append(cur)
+                            cur = []
+                    if cur:
+                        runs.append(cur)
+                    longest = max(runs, key=len) if runs else []
+                    if len(longest) < 12:
+                        raise MachineryError('the 32 MB result was not read in pieces (%d line events in _recv_exact): no mid-message point' % len(longest))
+                    pts = [longest[len(longest) * q // 8] for q in (1, 2, 3, 4, 5, 6, 7)]
                 if obsmode == 'double':
                     extra = {'double': True}
                 if obsmode == 'slowarg':
